@@ -631,6 +631,7 @@ fn hook(site: u32) {
 
 type Body = Arc<dyn Fn() -> Vec<u8> + Send + Sync>;
 
+#[derive(Serialize, Deserialize)]
 struct Run {
     choices: Vec<usize>,
     enabled_n: Vec<usize>,
@@ -956,6 +957,193 @@ fn binding_scenarios(seed: u64, thorough: bool) -> Vec<Scenario> {
         });
     }
     v
+}
+
+
+// ------------------------------------------------------------------------------------------------
+// E3i: cold-start schedules. E3b explores schedules inside ONE long-lived process, so anything that is
+// initialised once per process (a lazily built table, a one-time self-check) is long done when a
+// preemption lands in it. Here EVERY schedule runs in its own freshly started process: the first library
+// calls of the process are the ones being interleaved
+// ------------------------------------------------------------------------------------------------
+
+/// scenarios whose bodies report, besides their results, whether this thread's drop ledger stayed clean
+fn cold_scenarios(seed: u64) -> Vec<Scenario> {
+    let mut v = vec![];
+    let ledger_tail = |l0: [(u64, u64, u64); 4]| -> Vec<u8> {
+        let l1 = hpke::verif::ledger();
+        let dirty: u64 = (0..4).map(|i| l1[i].1 - l0[i].1).sum();
+        let drops: u64 = (0..4).map(|i| l1[i].0 - l0[i].0).sum();
+        format!("|drops>0:{}|dirty:{}", drops > 0, dirty).into_bytes()
+    };
+    for (name, sa, sb, ma, mb) in [
+        ("C1 two senders, same suite", ALPHA, ALPHA, Mode::Base, Mode::Base),
+        ("C2 sender(alpha) || receiver(beta)", ALPHA, BETA, Mode::Base, Mode::AuthPsk),
+        ("C3 receiver(alpha) || receiver(gamma)", ALPHA, GAMMA, Mode::Base, Mode::Base),
+    ] {
+        let fa = fix(sa, ma, 91, seed);
+        let fb = fix(sb, mb, 92, seed);
+        let mk = move |fx: Arc<Fix>, sender: bool| -> (Body, Vec<u8>) {
+            let expect = if sender { [fx.enc.clone(), fx.export.clone(), b"|drops>0:true|dirty:0".to_vec()].concat() } else { [fx.msgs[0].0.clone(), fx.export.clone(), b"|drops>0:true|dirty:0".to_vec()].concat() };
+            let body: Body = Arc::new(move || {
+                let ops = hpke_mc::suites::suite_ops(fx.suite);
+                let l0 = hpke::verif::ledger();
+                let mut out = if sender {
+                    match ops.setup_sender(&fx.m, &fx.k.pk_r, &fx.info, &mut ScriptRng::new(&fx.k.ikm_e)) {
+                        Obs::Ok((enc, s)) => [enc, enc_err(s.export(b"e3", 40), |v| v)].concat(),
+                        o => enc_err(o.map(|_| vec![]), |v| v),
+                    }
+                } else {
+                    match ops.setup_receiver(&fx.m, &fx.k.sk_r, &fx.enc, &fx.info) {
+                        Obs::Ok(mut r) => [enc_err(r.open(&fx.msgs[0].2, &fx.msgs[0].1), |v| v), enc_err(r.export(b"e3", 40), |v| v)].concat(),
+                        o => enc_err(o.map(|_| vec![]), |v| v),
+                    }
+                };
+                // (the context has been dropped by now: its secrets must have been wiped on THIS thread's ledger)
+                out.extend(ledger_tail(l0));
+                out
+            });
+            (body, expect)
+        };
+        let first_is_sender = !name.starts_with("C3");
+        let (b0, e0) = mk(fa, first_is_sender);
+        let (b1, e1) = mk(fb, name.starts_with("C1"));
+        v.push(Scenario { name: name.into(), bodies: vec![b0, b1], expect: vec![e0, e1], prelude: vec![] });
+    }
+    v
+}
+
+/// child: `sched --cold <seed> <scenario index> [choices...]` runs ONE schedule and prints it as JSON
+fn cold_child(args: &[String]) -> ! {
+    obs::install_panic_hook();
+    hpke::verif::set_sched_hook(Some(hook));
+    let seed: u64 = args[0].parse().expect("seed");
+    let si: usize = args[1].parse().expect("scenario");
+    let prefix: Vec<usize> = args[2..].iter().map(|a| a.parse().expect("choice")).collect();
+    let sc = cold_scenarios(seed);
+    let r = run_schedule(&prefix, &sc[si].bodies);
+    println!("COLD {}", serde_json::to_string(&r).unwrap());
+    std::process::exit(0)
+}
+
+#[derive(Clone, Debug, Serialize, Deserialize)]
+struct ColdCase {
+    scenario: usize,
+    bound: usize,
+}
+
+struct ColdStart {
+    scen: Vec<Scenario>,
+    bounds: Vec<usize>,
+}
+
+impl Part for ColdStart {
+    type Case = ColdCase;
+    fn name(&self) -> String {
+        "E3i-cold-start-schedules".into()
+    }
+    fn rule(&self) -> String {
+        "the preemption-bounded schedule exploration of E3b, but EVERY schedule is executed in its own freshly started process, so that the interleaved calls are the first library calls of the process (one-time initialisation, lazily built tables and self-checks are in their initial state); two threads each set up a context, use it and drop it; oracle: R1's results, and each thread's drop ledger shows wipes and no dirty drop".into()
+    }
+    fn bound(&self, _cfg: &Cfg) -> String {
+        format!("{} scenarios (2 threads), preemption bounds {:?}, one process per schedule", self.scen.len(), self.bounds)
+    }
+    fn rerun_check(&self) -> bool {
+        false
+    }
+    fn enumerate(&self, _cfg: &Cfg) -> Vec<ColdCase> {
+        let mut v = vec![];
+        for s in 0..self.scen.len() {
+            for &b in &self.bounds {
+                v.push(ColdCase { scenario: s, bound: b });
+            }
+        }
+        v
+    }
+    fn run(&self, cfg: &Cfg, c: &ColdCase) -> CaseOut {
+        let mut out = CaseOut::new();
+        out.nontrivial = true;
+        let sc = &self.scen[c.scenario];
+        out.outcome = format!("{}/bound{}", sc.name.split(' ').next().unwrap_or(""), c.bound);
+        let exe = match std::env::current_exe() {
+            Ok(e) => e,
+            Err(e) => {
+                out.fail_machinery(format!("current_exe: {}", e));
+                return out;
+            }
+        };
+        let run_cold = |prefix: &[usize]| -> Result<Run, String> {
+            let mut cmd = std::process::Command::new(&exe);
+            cmd.arg("--cold").arg(cfg.seed.to_string()).arg(c.scenario.to_string());
+            for p in prefix {
+                cmd.arg(p.to_string());
+            }
+            let res = cmd.output().map_err(|e| format!("cannot start the child process: {}", e))?;
+            let text = String::from_utf8_lossy(&res.stdout).to_string();
+            match text.lines().find_map(|l| l.strip_prefix("COLD ")) {
+                Some(j) => serde_json::from_str(j).map_err(|e| format!("bad child output: {}", e)),
+                None => Err(format!("the fresh process running schedule {:?} ended without a result (status {:?})", prefix, res.status.code())),
+            }
+        };
+        let mut stack: Vec<Vec<usize>> = vec![vec![]];
+        let mut n = 0u64;
+        while let Some(prefix) = stack.pop() {
+            let r = match run_cold(&prefix) {
+                Ok(r) => r,
+                Err(e) => {
+                    out.fail(format!("{}: {}", sc.name, e));
+                    break;
+                }
+            };
+            n += 1;
+            out.transitions += sc.bodies.len() as u64;
+            if r.diverged {
+                out.fail(format!("{}: replay divergence in a fresh process for prefix {:?}", sc.name, prefix));
+                break;
+            }
+            if r.trace.is_empty() {
+                out.fail_machinery(format!("{}: no scheduling point fired in the child", sc.name));
+                break;
+            }
+            let mut cost = 0usize;
+            let mut costs = vec![];
+            for i in 0..r.choices.len() {
+                costs.push(cost);
+                if r.choices[i] != 0 && r.running_enabled[i] {
+                    cost += 1;
+                }
+            }
+            if r.outs != sc.expect {
+                let which: Vec<usize> = (0..r.outs.len()).filter(|i| r.outs[*i] != sc.expect[*i]).collect();
+                let show = |b: &[u8]| -> String {
+                    match b.iter().position(|x| *x == b'|') {
+                        Some(p) => format!("{}{}", obs::hx(&b[..p.min(12)]), String::from_utf8_lossy(&b[p..])),
+                        None => obs::hx(&b[..b.len().min(24)]),
+                    }
+                };
+                out.fail(format!(
+                    "{}: schedule {:?} ({} preemptions) as the FIRST calls of a fresh process: thread(s) {:?} differ from sequential execution: got {} want {}",
+                    sc.name, r.choices, cost, which, show(&r.outs[which[0]]), show(&sc.expect[which[0]])
+                ));
+                if out.mismatches.len() >= 3 {
+                    break;
+                }
+            }
+            for i in prefix.len()..r.choices.len() {
+                for alt in 1..r.enabled_n[i] {
+                    let cst = costs[i] + if r.running_enabled[i] { 1 } else { 0 };
+                    if cst > c.bound {
+                        continue;
+                    }
+                    let mut p = r.choices[..i].to_vec();
+                    p.push(alt);
+                    stack.push(p);
+                }
+            }
+        }
+        out.states = n;
+        out
+    }
 }
 
 #[derive(Clone, Debug, Serialize, Deserialize)]
@@ -1943,6 +2131,9 @@ impl Part for ObjectReuse {
 
 fn main() {
     let a: Vec<String> = std::env::args().collect();
+    if a.len() > 3 && a[1] == "--cold" {
+        cold_child(&a[2..]);
+    }
     if a.len() > 4 && a[1] == "--longrun" {
         lr_child(&a[2..]);
     }
@@ -1994,6 +2185,7 @@ fn main() {
             "C18" => {}
             "C06" => cfg.prop = "C06".into(),
             "C07" => cfg.prop = "C07".into(),
+            "C16" => cfg.prop = "C16".into(),
             other => {
                 eprintln!("unknown argument {}", other);
                 std::process::exit(2);
@@ -2015,6 +2207,37 @@ fn main() {
     hpke::verif::set_sched_hook(Some(hook));
     let t0 = Instant::now();
     let t = cfg.tier.thorough();
+    if cfg.prop == "C16" {
+        // C16's concurrent cold-start part: contexts set up and dropped by two threads as the first calls of a process
+        let part = ColdStart { scen: cold_scenarios(cfg.seed), bounds: if t { vec![0, 1, 2] } else { vec![0, 1] } };
+        if let Some(path) = &cfg.replay {
+            let v: serde_json::Value = serde_json::from_str(&std::fs::read_to_string(path).expect("cannot read replay file")).expect("bad replay file");
+            match replay_part(&part, &cfg, &v["case"]) {
+                Ok(o) => {
+                    println!("replay: {} comparisons, {} mismatches", o.transitions, o.mismatches.len());
+                    for m in &o.mismatches {
+                        println!("  MISMATCH {}", m.msg);
+                    }
+                    std::process::exit(if o.mismatches.is_empty() { 0 } else { 1 });
+                }
+                Err(e) => {
+                    eprintln!("{}", e);
+                    std::process::exit(2);
+                }
+            }
+        }
+        let r = run_part(&part, &cfg);
+        eprintln!("  part {}: cases {} schedules (one process each) {} violating {} ({:.1}s)", r.name, r.run, r.states, r.violations.len(), r.wall_s);
+        if !r.machinery_errors.is_empty() {
+            for e in &r.machinery_errors {
+                eprintln!("MACHINERY-ERROR {}", e);
+            }
+            std::process::exit(2);
+        }
+        let path = emit_part.expect("sched C16 needs --emit-part <file>");
+        std::fs::write(&path, serde_json::to_string(&vec![r]).unwrap()).expect("cannot write part file");
+        std::process::exit(0);
+    }
     if cfg.prop == "C06" || cfg.prop == "C07" {
         // the concurrent parts of C06 (honest and tampered openers) and C07 (a mismatched receiver next to other key
         // schedules) under every preemption-bounded schedule
@@ -2081,6 +2304,8 @@ fn main() {
             replay_part(&e3a, &cfg, &v["case"])
         } else if v["part"].as_str() == Some(&pairs.name()) {
             replay_part(&pairs, &cfg, &v["case"])
+        } else if v["part"].as_str() == Some("E3i-cold-start-schedules") {
+            replay_part(&ColdStart { scen: cold_scenarios(cfg.seed), bounds: vec![0, 1, 2] }, &cfg, &v["case"])
         } else if v["part"].as_str() == Some(&ObjectReuse.name()) {
             replay_part(&ObjectReuse, &cfg, &v["case"])
         } else if v["part"].as_str() == Some(&LongHistories.name()) {
@@ -2121,6 +2346,12 @@ fn main() {
     if want(&fc.name()) {
         let r = run_part(&fc, &cfg);
         eprintln!("  part {}: cases {} transitions {} violating {} ({:.1}s)", r.name, r.run, r.transitions, r.violations.len(), r.wall_s);
+        reports.push(r);
+    }
+    let cold = ColdStart { scen: cold_scenarios(cfg.seed), bounds: if t { vec![0, 1, 2] } else { vec![0, 1] } };
+    if want(&cold.name()) {
+        let r = run_part(&cold, &cfg);
+        eprintln!("  part {}: cases {} schedules (one process each) {} violating {} ({:.1}s)", r.name, r.run, r.states, r.violations.len(), r.wall_s);
         reports.push(r);
     }
     if want(&ObjectReuse.name()) {
